@@ -324,7 +324,7 @@ def check_cases(run, cases, src, exe, stats, found):
         nii = sum(1 for q in res.get("requests", []) if (q[2] or "").startswith("imageinfo"))
         stats["cases_with_2+_imageinfo_batches"] += 1 if nii >= 2 else 0
         lat = case["opts"].get("latency", "random")
-        lat = "explicit" if isinstance(lat, list) else lat
+        lat = "explicit" if isinstance(lat, list) else "kinds" if isinstance(lat, dict) else lat
         stats["latency_mode"][lat] = stats["latency_mode"].get(lat, 0) + 1
         stats["greenlet_skips"] += len(res.get("greenlet_errors", []))
         o = case["opts"]
@@ -452,7 +452,7 @@ def check(run):
                 "metabook, options); non-trivial = some listed item is not a plain existing title, or the wiki has > 4 pages")
     run.trusted = ["Coq 8.16.1 kernel (coqc); vm_compute only in the Examples",
                    "extraction (ExtrOcamlBasic directives only) + ocaml/c11/driver.ml (parser/printer)",
-                   "hand-written model coq/C11/Model.v of Fetcher (fetch.py) incl. the three proposed fixes; tie = differential run against the real code",
+                   "hand-written model coq/C11/Model.v of Fetcher (fetch.py as of the fix commits 4906af9 8808eaf 8d69ad3 3ee1a3d); tie = differential run against the real code",
                    "synthetic MediaWiki vt/harness/c11_wiki.py (legacy query-continue protocol, MediaWiki transclusion/redirect semantics as documented there)",
                    "abstraction archive -> model items in vt/props/c11.py (texts identified with the revision whose expansion they equal)",
                    "gevent: a greenlet runs until it blocks; sqlitedict, nuwiki.Adapt (read back)"]
@@ -470,7 +470,7 @@ def check(run):
     except Exception as e:      # model does not build: the monitor still runs
         run.obligation("ocaml-driver-builds", False, str(e)[-300:])
         exe = None
-    n = 600 if run.tier == "quick" else 5000
+    n = 900 if run.tier == "quick" else 20000
     corpus = os.path.join(core.VERIF, "corpus", "C11")
     cases = []
     if os.path.isdir(corpus):
